@@ -51,10 +51,10 @@ def pre_replace(old_text, start_num, num_chars, new_text):
 
 
 def post_replace(old_text, start_num, num_chars, new_text, result):
+    if start_num < 1 or num_chars < 0:
+        return result == VALUE_ERROR        # a negative count is negative before its fraction is dropped (-0.5)
     p = int(start_num) - 1
     k = int(num_chars)
-    if p < 0 or k < 0:
-        return result == VALUE_ERROR
     n = len(old_text)
     a = p if p < n else n
     b = a + k if a + k < n else n
